@@ -110,6 +110,33 @@ fn ast_json(a: &cfgrammar::yacc::ast::GrammarAST) -> Value {
     })
 }
 
+fn grm_json(g: &YaccGrammar<u32>) -> Value {
+    let pj = |p: Option<cfgrammar::yacc::Precedence>| match p {
+        None => json!([-1, -1]),
+        Some(p) => json!([p.level, match p.kind { cfgrammar::yacc::AssocKind::Left => 0, cfgrammar::yacc::AssocKind::Right => 1, cfgrammar::yacc::AssocKind::Nonassoc => 2 }]),
+    };
+    json!({
+        "built": true,
+        "nr": usize::from(g.rules_len()), "nt": usize::from(g.tokens_len()), "np": usize::from(g.prods_len()),
+        "tokens": g.iter_tidxs().map(|t| json!({"name": cps(g.token_name(t).unwrap_or("")), "has_name": g.token_name(t).is_some(),
+            "span": g.token_span(t).map(|s| json!([s.start(), s.end()])).unwrap_or(json!([-1, -1])),
+            "prec": pj(g.token_precedence(t)), "epp": cps(g.token_epp(t).unwrap_or("")), "has_epp": g.token_epp(t).is_some(),
+            "avoid": g.avoid_insert(t)})).collect::<Vec<_>>(),
+        "rules": g.iter_rules().map(|r| json!({"name": cps(g.rule_name_str(r)), "span": [g.rule_name_span(r).start(), g.rule_name_span(r).end()],
+            "prods": g.rule_to_prods(r).iter().map(|p| usize::from(*p)).collect::<Vec<_>>(),
+            "actiontype": g.actiontype(r).as_ref().map(|t| json!([cps(t)])).unwrap_or(json!([]))})).collect::<Vec<_>>(),
+        "prods": g.iter_pidxs().map(|p| json!({"r": usize::from(g.prod_to_rule(p)),
+            "rhs": g.prod(p).iter().map(crate::lr::sym_code).collect::<Vec<_>>(),
+            "prec": pj(g.prod_precedence(p)), "span": [g.prod_span(p).start(), g.prod_span(p).end()],
+            "action": g.action(p).as_ref().map(|t| json!([cps(t)])).unwrap_or(json!([])),
+            "action_span": g.action_span(p).map(|s| json!([s.start(), s.end()])).unwrap_or(json!([]))})).collect::<Vec<_>>(),
+        "startprod": usize::from(g.start_prod()), "startrule": usize::from(g.start_rule_idx()), "eof": usize::from(g.eof_token_idx()),
+        "expect": g.expect().map(|x| digits(x)).unwrap_or_default(), "expectrr": g.expectrr().map(|x| digits(x)).unwrap_or_default(),
+        "implicit_rule": g.implicit_rule().map(|x| usize::from(x) as i64).unwrap_or(-1),
+        "programs": g.programs().as_ref().map(|t| json!([cps(t)])).unwrap_or(json!([])),
+    })
+}
+
 fn one(entry: &str, s: &str) -> Value {
     let r = catch(|| match entry {
         "header" => match GrmtoolsSectionParser::new(s, false).parse() {
@@ -128,7 +155,16 @@ fn one(entry: &str, s: &str) -> Value {
         k if k.starts_with("yast_") => {
             // the Yacc parser on its own: the AST it builds and the errors of parsing + validation
             let astv = ASTWithValidityInfo::new(yacckind(&k[5..]), s);
-            json!({"class": if astv.is_valid() { "ok" } else { "err" }, "ast": ast_json(astv.ast()),
+            // ... and, for a valid AST, the grammar object that is made of it (names as code points)
+            let grm = if astv.is_valid() {
+                match YaccGrammar::<u32>::new_from_ast_with_validity_info(&astv) {
+                    Ok(g) => grm_json(&g),
+                    Err(_) => json!({"built": false}),
+                }
+            } else {
+                json!({"built": false})
+            };
+            json!({"class": if astv.is_valid() { "ok" } else { "err" }, "ast": ast_json(astv.ast()), "grm": grm,
                    "errors": astv.errors().iter().map(|e| json!({"kind": e.to_string(), "spans": spans_of(e)})).collect::<Vec<_>>(), "warnings": []})
         }
         k => {
